@@ -4,7 +4,7 @@
    a sample of every run (the in-kernel sample), so the extraction itself is checked. *)
 From Coq Require Import List Ascii String Bool Arith NArith ZArith.
 Require Import Show.
-Require V1 V5 V6 V3 V11 A1 D3 M6 M6b GS R2 AR AR2 AR3 CL TS3.
+Require V1 V5 V6 V3 V11 A1 D3 M6 M6b GS R2 AR AR2 AR3 CL TS3 CX SchemaDefs Schema_gen.
 Import ListNotations.
 Open Scope string_scope.
 Open Scope list_scope.
@@ -253,6 +253,121 @@ Definition run_order (op : string) (a : list str) : option str :=
           end)
   else None.
 
+(* ---- struct codec and typed documents: C09 C10 ---- *)
+Definition show_v3p (v : V3.version) : str := lit "( " ++ show_v3 v ++ lit " )".
+Fixpoint show_xval (v : CX.xval) : str :=
+  match v with
+  | CX.XS x => hx x
+  | CX.XI z => show_Z z
+  | CX.XU n => show_N n
+  | CX.XB b => show_bool b
+  | CX.XVer v => show_v3p v
+  | CX.XDep d => show_dep d
+  | CX.XArch a => lit "( " ++ show_arch a ++ lit " )"
+  | CX.XHash alg h sz name bh => unwords [lit "("; hx alg; hx h; show_Z sz; hx name; hx bh; lit ")"]
+  | CX.XChg h sz comp prio name => unwords [lit "("; hx h; show_Z sz; hx comp; hx prio; hx name; lit ")"]
+  | CX.XList l => show_list show_xval l
+  | CX.XUnsupported => lit "?"
+  end.
+Definition show_record (r : list CX.cval) : str :=
+  unwords (map (fun v => SchemaDefs.go_name (fst v) ++ lit "=" ++ show_xval (snd v)) r).
+Definition schema_named (name : str) : option (SchemaDefs.schema * bool) :=
+  match find (fun e => D3.seq (fst e) name) Schema_gen.all_schemas with Some (_, x) => Some x | None => None end.
+(* field values as the driver passes them: see harness/cmd/implrun/codec.go for the same conventions *)
+Definition us : ascii := ascii_of_nat 31.
+Definition rs : ascii := ascii_of_nat 30.
+Definition arg_Z (x : str) : Z :=
+  match x with c :: r => if (N_of_ascii c =? 45)%N then (- Z.of_N (arg_N r))%Z else Z.of_N (arg_N x) | [] => 0%Z end.
+Fixpoint items_of (x : str) (cur : str) : list str :=
+  match x with
+  | [] => []
+  | c :: r => if GS.ceq c rs then rev cur :: items_of r [] else items_of r (c :: cur)
+  end.
+Fixpoint value_of_arg (k : SchemaDefs.fkind) (x : str) : CX.xval :=
+  match k with
+  | SchemaDefs.KString => CX.XS x
+  | SchemaDefs.KInt => CX.XI (arg_Z x)
+  | SchemaDefs.KUint => CX.XU (arg_N x)
+  | SchemaDefs.KBool => CX.XB (arg_bool x)
+  | SchemaDefs.KStruct name =>
+      let p := GS.split us x in
+      if D3.seq name (lit "pault.ag/go/debian/version.Version") then
+        CX.XVer {| V3.epoch := arg_N (nth 0 p []); V3.upstream := nth 1 p []; V3.revision := nth 2 p [] |}
+      else if D3.seq name (lit "pault.ag/go/debian/dependency.Dependency") then
+        CX.XDep (match D3.parse x with D3.Ok d => d | _ => [] end)
+      else if D3.seq name (lit "pault.ag/go/debian/dependency.Arch") then CX.XArch (A1.mk (nth 0 p []) (nth 1 p []) (nth 2 p []))
+      else match CX.struct_alg name with
+           | Some alg => CX.XHash alg (nth 0 p []) (arg_Z (nth 1 p [])) (nth 2 p []) (CX.byhash_of alg)
+           | None => CX.XUnsupported end
+  | SchemaDefs.KSlice k' => CX.XList (map (value_of_arg k') (items_of x []))
+  | _ => CX.XUnsupported
+  end.
+Fixpoint record_of_args (sch : list CX.fd) (a : list str) : list CX.cval :=
+  match sch, a with
+  | f :: sch', x :: a' => (f, value_of_arg (SchemaDefs.kind f) x) :: record_of_args sch' a'
+  | _, _ => []
+  end.
+Fixpoint decode_paras (sch : SchemaDefs.schema) (ps : list R2.para) : option (list (list CX.cval)) :=
+  match ps with
+  | [] => Some []
+  | p :: r => match CX.decode_para sch p, decode_paras sch r with Some x, Some xs => Some (x :: xs) | _, _ => None end
+  end.
+Definition run_codec (op : string) (a : list str) : option str :=
+  let g n := nth_arg n a in
+  if op =? "cunmarshal" then
+    Some (match schema_named (g 0) with
+          | None => lit "no-such-type"
+          | Some (sch, _) => match CX.decode_text sch (g 1) with Some r => lit "ok " ++ show_record r | None => lit "err" end
+          end)
+  else if op =? "cmarshal" then
+    (* type, number n of (key, value) pairs of the embedded paragraph, the pairs, then one argument per active field *)
+    Some (match schema_named (g 0) with
+          | None => lit "no-such-type"
+          | Some (sch, hp) =>
+              let n := arg_nat (g 1) in
+              let found := para_of_args (firstn (2 * n) (skipn 2 a)) R2.empty_para in
+              let r := record_of_args (CX.active sch) (skipn (2 + 2 * n) a) in
+              match CX.marshal_text sch hp found r with Some t => lit "ok " ++ hx t | None => lit "err" end
+          end)
+  else if op =? "tindex" then
+    Some (match schema_named (g 0) with
+          | None => lit "no-such-type"
+          | Some (sch, _) =>
+              match R2.read_all (g 1) with
+              | None => lit "err"
+              | Some ps => match decode_paras sch ps with Some rs => lit "ok " ++ show_list (fun r => lit "<< " ++ show_record r ++ lit " >>") rs | None => lit "err" end
+              end
+          end)
+  else if op =? "tcontrol" then
+    Some (match schema_named (lit "source_par"), schema_named (lit "binary_par") with
+          | Some (ssch, _), Some (bsch, _) =>
+              match R2.next R2.empty_para [] (GS.lines_of (g 0)) with
+              | R2.RPara p rest =>
+                  match CX.decode_para ssch p, R2.all_fuel (S (List.length rest)) rest with
+                  | Some sr, Some ps =>
+                      match decode_paras bsch ps with
+                      | Some rs => lit "ok << " ++ show_record sr ++ lit " >> " ++ show_list (fun r => lit "<< " ++ show_record r ++ lit " >>") rs
+                      | None => lit "err" end
+                  | _, _ => lit "err"
+                  end
+              | _ => lit "err"
+              end
+          | _, _ => lit "no-such-type"
+          end)
+  else if op =? "croundtrip" then
+    Some (match schema_named (g 0) with
+          | None => lit "no-such-type"
+          | Some (sch, hp) =>
+              let n := arg_nat (g 1) in
+              let found := para_of_args (firstn (2 * n) (skipn 2 a)) R2.empty_para in
+              let r := record_of_args (CX.active sch) (skipn (2 + 2 * n) a) in
+              match CX.marshal_text sch hp found r with
+              | Some t => lit "ok " ++ hx t ++ sp1 ++
+                          match CX.decode_text sch t with Some r2 => lit "ok " ++ show_record r2 | None => lit "err" end
+              | None => lit "err" end
+          end)
+  else None.
+
 Definition run (op : string) (hexargs : list str) : str :=
   let a := map unhex hexargs in
   match run_version op a with Some r => r | None =>
@@ -261,4 +376,5 @@ Definition run (op : string) (hexargs : list str) : str :=
   match run_ar op a with Some r => r | None =>
   match run_changelog op a with Some r => r | None =>
   match run_order op a with Some r => r | None =>
-  lit "unknown-op" end end end end end end.
+  match run_codec op a with Some r => r | None =>
+  lit "unknown-op" end end end end end end end.
